@@ -311,6 +311,22 @@ def s15():
     return "S15-known-channel-then-repeated-value", src
 
 
+def s16(cap):
+    """a worker thread reports progress with ev/give-supervisor faster than the supervisor reads (channel capacity cap):
+    every report and the final event must arrive, in order, and the worker must finish"""
+    src = HEADER.format(mk=MSG["num"]) + """
+(def sup (ev/thread-chan %d))
+(ev/thread (fn [&] (for i 0 4 (ev/give-supervisor :progress i)) :worker-result) nil :n sup)
+(ev/sleep 2)        # the supervisor is busy: reports pile up against the capacity
+(def out @[])
+(repeat 5 (def ev (ev/take sup)) (array/push out (if (= :progress (ev 0)) (ev 1) [(ev 0) (ev 1)])))
+(ev/sleep 1)
+(print "got " (show out) " left " (ev/count sup))
+(os/exit 0)
+""" % cap
+    return "S16-give-supervisor:cap%d" % cap, src
+
+
 def parse_j(text):
     return text
 
@@ -401,6 +417,9 @@ def oracle(name, out):
         want = "@[" + " ".join('[@[%d 2 3] @{:k "v"} @[%d 2 3] true]' % (i, i) for i in range(3)) + "]"
         if got != want:
             return ("message-altered", "got %s want %s" % (got, want))
+    elif name.startswith("S16"):
+        if got != "@[0 1 2 3 [:ok :worker-result]] left 0":
+            return ("supervisor-event", "reports and final event: %s" % got)
     elif name.startswith("S10"):
         if got != "@[0 1]":
             return ("lock", "got %s" % got)
@@ -564,7 +583,7 @@ def main():
         scen = []
         if chk.quick:
             scen += [s1(2, 0, "num"), s1(2, 1, "tab"), s2(1, 0), s3(1, 0), s4(), s5("reader"), s5("writer"), s6(),
-                     s7("returns"), s8(), s9(), s10(), s11("select"), s11("take"), s12(), s13(), s14(40), s15()]
+                     s7("returns"), s8(), s9(), s10(), s11("select"), s11("take"), s12(), s13(), s14(40), s15(), s16(0), s16(2)]
             plan = {"bound": 2, "max_exec": 2500}
         else:
             for k in (1, 2, 3):
@@ -572,7 +591,7 @@ def main():
                     scen.append(s1(k, cap, "num"))
             scen += [s1(2, 1, "str"), s1(2, 0, "tup"), s1(2, 1, "tab"), s2(1, 0), s2(2, 1), s3(2, 0), s3(2, 1), s4(),
                      s5("reader"), s5("writer"), s6(), s7("returns"), s7("errors"), s8(), s9(), s10(),
-                     s11("select"), s11("take"), s12(), s13(), s14(40), s14(70), s15()]
+                     s11("select"), s11("take"), s12(), s13(), s14(40), s14(70), s15(), s16(0), s16(1), s16(2)]
             plan = {"bound": 2, "max_exec": 40000}
         only = chk.args.only
         if only:
